@@ -523,9 +523,9 @@ pub fn bool_vector_set(push_state: &mut PushState, _instruction_cache: &Instruct
 pub fn bool_vector_and(push_state: &mut PushState, _instruction_cache: &InstructionCache) {
     if let Some(mut bv) = push_state.bool_vector_stack.pop_vec(2) {
         if let Some(offset) = push_state.int_stack.pop() {
-            // Loop through indices of second item
+            // Loop through indices of top item
             let scd_size = bv[0].values.len();
-            for i in 0..scd_size {
+            for i in 0..bv[1].values.len() {
                 let ofs_idx = match offset_index(i, offset, scd_size) {
                     Some(idx) => idx,
                     None => continue, // Out of bounds
@@ -558,9 +558,9 @@ pub fn bool_vector_get(push_state: &mut PushState, _instruction_cache: &Instruct
 pub fn bool_vector_or(push_state: &mut PushState, _instruction_cache: &InstructionCache) {
     if let Some(mut bv) = push_state.bool_vector_stack.pop_vec(2) {
         if let Some(offset) = push_state.int_stack.pop() {
-            // Loop through indices of second item
+            // Loop through indices of top item
             let scd_size = bv[0].values.len();
-            for i in 0..scd_size {
+            for i in 0..bv[1].values.len() {
                 let ofs_idx = match offset_index(i, offset, scd_size) {
                     Some(idx) => idx,
                     None => continue, // Out of bounds
@@ -830,9 +830,9 @@ pub fn int_vector_set(push_state: &mut PushState, _instruction_cache: &Instructi
 pub fn int_vector_add(push_state: &mut PushState, _instruction_cache: &InstructionCache) {
     if let Some(mut iv) = push_state.int_vector_stack.pop_vec(2) {
         if let Some(offset) = push_state.int_stack.pop() {
-            // Loop through indices of second item
+            // Loop through indices of top item
             let scd_size = iv[0].values.len();
-            for i in 0..scd_size {
+            for i in 0..iv[1].values.len() {
                 let ofs_idx = match offset_index(i, offset, scd_size) {
                     Some(idx) => idx,
                     None => continue, // Out of bounds
@@ -852,9 +852,9 @@ pub fn int_vector_add(push_state: &mut PushState, _instruction_cache: &Instructi
 pub fn int_vector_subtract(push_state: &mut PushState, _instruction_cache: &InstructionCache) {
     if let Some(mut iv) = push_state.int_vector_stack.pop_vec(2) {
         if let Some(offset) = push_state.int_stack.pop() {
-            // Loop through indices of second item
+            // Loop through indices of top item
             let scd_size = iv[0].values.len();
-            for i in 0..scd_size {
+            for i in 0..iv[1].values.len() {
                 let ofs_idx = match offset_index(i, offset, scd_size) {
                     Some(idx) => idx,
                     None => continue, // Out of bounds
@@ -874,9 +874,9 @@ pub fn int_vector_subtract(push_state: &mut PushState, _instruction_cache: &Inst
 pub fn int_vector_multiply(push_state: &mut PushState, _instruction_cache: &InstructionCache) {
     if let Some(mut iv) = push_state.int_vector_stack.pop_vec(2) {
         if let Some(offset) = push_state.int_stack.pop() {
-            // Loop through indices of second item
+            // Loop through indices of top item
             let scd_size = iv[0].values.len();
-            for i in 0..scd_size {
+            for i in 0..iv[1].values.len() {
                 let ofs_idx = match offset_index(i, offset, scd_size) {
                     Some(idx) => idx,
                     None => continue, // Out of bounds
@@ -898,9 +898,9 @@ pub fn int_vector_divide(push_state: &mut PushState, _instruction_cache: &Instru
     if let Some(mut iv) = push_state.int_vector_stack.pop_vec(2) {
         if let Some(offset) = push_state.int_stack.pop() {
             let mut invalid = false;
-            // Loop through indices of second item
+            // Loop through indices of top item
             let scd_size = iv[0].values.len();
-            for i in 0..scd_size {
+            for i in 0..iv[1].values.len() {
                 let ofs_idx = match offset_index(i, offset, scd_size) {
                     Some(idx) => idx,
                     None => continue, // Out of bounds
@@ -1221,9 +1221,9 @@ pub fn float_vector_set(push_state: &mut PushState, _instruction_cache: &Instruc
 pub fn float_vector_add(push_state: &mut PushState, _instruction_cache: &InstructionCache) {
     if let Some(mut iv) = push_state.float_vector_stack.pop_vec(2) {
         if let Some(offset) = push_state.int_stack.pop() {
-            // Loop through indices of second item
+            // Loop through indices of top item
             let scd_size = iv[0].values.len();
-            for i in 0..scd_size {
+            for i in 0..iv[1].values.len() {
                 let ofs_idx = match offset_index(i, offset, scd_size) {
                     Some(idx) => idx,
                     None => continue, // Out of bounds
@@ -1243,9 +1243,9 @@ pub fn float_vector_add(push_state: &mut PushState, _instruction_cache: &Instruc
 pub fn float_vector_subtract(push_state: &mut PushState, _instruction_cache: &InstructionCache) {
     if let Some(mut iv) = push_state.float_vector_stack.pop_vec(2) {
         if let Some(offset) = push_state.int_stack.pop() {
-            // Loop through indices of second item
+            // Loop through indices of top item
             let scd_size = iv[0].values.len();
-            for i in 0..scd_size {
+            for i in 0..iv[1].values.len() {
                 let ofs_idx = match offset_index(i, offset, scd_size) {
                     Some(idx) => idx,
                     None => continue, // Out of bounds
@@ -1265,9 +1265,9 @@ pub fn float_vector_subtract(push_state: &mut PushState, _instruction_cache: &In
 pub fn float_vector_multiply(push_state: &mut PushState, _instruction_cache: &InstructionCache) {
     if let Some(mut iv) = push_state.float_vector_stack.pop_vec(2) {
         if let Some(offset) = push_state.int_stack.pop() {
-            // Loop through indices of second item
+            // Loop through indices of top item
             let scd_size = iv[0].values.len();
-            for i in 0..scd_size {
+            for i in 0..iv[1].values.len() {
                 let ofs_idx = match offset_index(i, offset, scd_size) {
                     Some(idx) => idx,
                     None => continue, // Out of bounds
@@ -1289,9 +1289,9 @@ pub fn float_vector_divide(push_state: &mut PushState, _instruction_cache: &Inst
     if let Some(mut iv) = push_state.float_vector_stack.pop_vec(2) {
         if let Some(offset) = push_state.int_stack.pop() {
             let mut invalid = false;
-            // Loop through indices of second item
+            // Loop through indices of top item
             let scd_size = iv[0].values.len();
-            for i in 0..scd_size {
+            for i in 0..iv[1].values.len() {
                 let ofs_idx = match offset_index(i, offset, scd_size) {
                     Some(idx) => idx,
                     None => continue, // Out of bounds
